@@ -114,6 +114,17 @@ theorem call_returns {s : State} {t : Tid} {th : Thread} {op : Op} {ret : Bool} 
   rw [cfg_is_reference.1] at h ⊢
   exact return_step (reach_inv h) hth hpc
 
+/-- **trylock never blocks**: in no reachable state is any thread at, inside, or returning from a
+    `p_cond_variable_wait` on behalf of a trylock (or unlock) call — only `p_rwlock_reader_lock` waits
+    (on `read_cv`) and `p_rwlock_writer_lock` (on `write_cv`).  (The harness's `!TRYBLOCK` oracle
+    observes exactly this on the C side.) -/
+theorem try_never_waits {s : State} {t : Tid} {th : Thread} {op : Op} {cv : Cv} (h : Reach cfg s)
+    (hth : s.threads[t]? = some th)
+    (hpc : th.pc = .atWait op cv ∨ th.pc = .blocked op cv ∨ th.pc = .woken op cv) :
+    (op = .rlock ∧ cv = .read) ∨ (op = .wlock ∧ cv = .write) := by
+  rw [cfg_is_reference.1] at h
+  exact tok_wait ((reach_inv h).tok th (List.mem_of_getElem? hth)) hpc
+
 /-! ## d. readers share -/
 
 /-- from any reachable state with k reader holders and no writer holding, another
@@ -224,5 +235,14 @@ example : ∃ s, Reach cfg s ∧ allDone s = true ∧ s.threads.length = 2 := by
 /-- trylock both ways: a reader trylock fails while a writer holds, succeeds otherwise -/
 example : (runLabels cfg (init [[.wlock, .wunlock], [.rtry, .runlock]]) [.run 0 none, .run 0 none, .run 1 none, .run 1 none]).any
     (fun s => s.threads.any (fun th => th.last == some (.rtry, false))) = true := by decide
+
+/-- `try_never_waits` is not vacuous: a thread blocked in a wait exists in a reachable state (a writer
+    behind a reader), and it is the blocking `wlock` on `write_cv` -/
+example : ∃ s th, Reach cfg s ∧ s.threads[1]? = some th ∧ th.pc = .blocked .wlock .write := by
+  obtain ⟨s, hr, hq⟩ := reach_witness (c := cfg) [[.rlock, .runlock], [.wlock, .wunlock]]
+    [.run 0 none, .run 0 none, .run 1 none, .run 1 none]
+    (fun s => s.threads[1]? == some { pc := .blocked .wlock .write, prog := [.wunlock] })
+    (by decide) (by decide) (by decide)
+  exact ⟨s, _, hr, by simpa using hq, rfl⟩
 
 end PV.Props.C02
